@@ -735,6 +735,12 @@ def run_chain_call(run, env, thunk):
         rep_close = repr_close(before[k].repr, after[k].repr)
         if not tens and not coeff:
             run.count(f"meta-changed:{name}:{role}:{'+'.join(d)}")
+            if ("labels" in d or "model" in d) and not (regauge_ok and role == "arg"):
+                # labels / centre / direction / total label / site order decide what the next sweep keeps: a write to
+                # them is a write to the state (no operation of the clean tree does it outside the re-gauging ones)
+                report(run, f"{name}:{role}:input-labels-changed",
+                       dict(env=env.desc, op=name, args=args, changed=k, role=role, parts=d, extra=extra, log=env.log[-6:],
+                            before=before[k].ser(), after=L.ser_mp(env.objs[k])))
             continue
         replay = dict(env=env.desc, op=name, args=args, changed=k, role=role, parts=d, extra=extra, log=env.log[-6:],
                       before=before[k].ser(), after=L.ser_mp(env.objs[k]),
